@@ -397,6 +397,34 @@ def check_packet(ctx, comp, case, cls, ver, p, expect, specs=None,
     if rest:
         ctx.fail(comp, 'F2-consumption', case,
                  '%d of %d bytes left' % (len(rest), len(body)), 0)
+    # what was decoded stays what it is when the connection's context moves
+    # on to another protocol version (reconnect / negotiation): the fields
+    # are looked at while the context object carries a version on the other
+    # side of every layout change
+    moved = None
+    if c.protocol_version == ver and ver in P4.known_protocols():
+        moved = 47 if P4.rank(ver) >= P4.rank(401) else 757
+        c.protocol_version = moved
+    got_attrs = {}
+    # (accessors the class defines as properties are views that are
+    # documented to follow the context - JoinGamePacket.game_mode - and are
+    # read under the version the packet was decoded at)
+    views = {a for a in expect for k in type(q).__mro__
+             if hasattr(k.__dict__.get(a), '__get__')}
+    try:
+        for attr in expect:
+            try:
+                if attr not in views and hasattr(q, attr):
+                    got_attrs[attr] = getattr(q, attr)
+            except Exception as e:
+                ctx.fail(comp, 'F3-field-access-raises',
+                         dict(case, field=attr), exc=e)
+    finally:
+        if moved is not None:
+            c.protocol_version = ver
+    for attr in views:
+        if hasattr(q, attr):
+            got_attrs[attr] = getattr(q, attr)
     # what was read can be written again unchanged (decode -> encode)
     s3 = Sink()
     try:
@@ -407,10 +435,10 @@ def check_packet(ctx, comp, case, cls, ver, p, expect, specs=None,
     except Exception as e:
         ctx.fail(comp, 'F6-reencode-raises', case, exc=e)
     for attr, want in expect.items():
-        if not hasattr(q, attr):
+        if attr not in got_attrs:
             ctx.fail(comp, 'F3-field-missing', dict(case, field=attr))
             continue
-        got = getattr(q, attr)
+        got = got_attrs[attr]
         sp = (specs or {}).get(attr)
         ok = same5(sp, want, got) if sp is not None else _plain_eq(want, got)
         if not ok:
@@ -989,9 +1017,18 @@ def t_sweep(ctx, lo, hi, rounds):
         if cls.__name__ in HAND:
             continue
         if not is_definition_driven(cls):
-            ctx.fail('defn', 'harness-unknown-handwritten',
-                     {'cls': cls.__name__})
-            continue
+            # a class that carries a field definition is described by it
+            # even when it brings its own read()/write_fields(); one without
+            # a definition that the harness has no layout for cannot be
+            # judged (counted, never a violation)
+            try:
+                described = cls.get_definition(P4.ctx_for(v)) is not None
+            except Exception:
+                described = False
+            if not described:
+                ctx.label('unjudged_handwritten_class:' + cls.__name__)
+                continue
+            ctx.label('own_codec_with_definition')
         fl = fields_of(cls, v)
         for r in range(rounds):
             vals = {}
